@@ -366,7 +366,16 @@ def main():
         ctx.log(f"correspondence ({ctx.tier})")
         corr = {"ok": True, "disagreements": [], "stats": {}, "samples": []}
         if hasattr(H, "correspondence"):
-            corr = H.correspondence(ctx)
+            try:
+                corr = H.correspondence(ctx)
+            except Infra:
+                raise
+            except Exception as e:  # noqa: BLE001
+                # the harness drives the REAL code: an exception escaping from it means the code did something the harness (written
+                # against the unchanged tree, where it runs clean) does not expect - reported as a broken correspondence, not as infrastructure
+                tb = traceback.format_exc().strip().splitlines()
+                corr = {"ok": False, "disagreements": [f"harness-exception: {type(e).__name__}: {str(e)[:200]} @ {tb[-3].strip()[:120] if len(tb) > 2 else ''}"],
+                        "stats": {}, "samples": []}
             broken += [f"correspondence: {d}" for d in corr.get("disagreements", [])[:20]]
         # ---------------------------------------------------------------- verdict
         known = [f for f in load_known().get("findings", []) if f["property"] == prop]
@@ -376,7 +385,12 @@ def main():
         found = list(corr.get("failing_inputs", []))
         if broken or ctx.tier == "thorough" or getattr(H, "ALWAYS_SEARCH", False):
             ctx.log("failing-input search on the real code" + (f" ({len(broken)} broken items)" if broken else " (proactive)"))
-            found += H.search(ctx, broken) if hasattr(H, "search") else []
+            try:
+                found += H.search(ctx, broken) if hasattr(H, "search") else []
+            except Infra:
+                raise
+            except Exception as e:  # noqa: BLE001
+                broken.append(f"search-exception: {type(e).__name__}: {str(e)[:200]}")
         known_keys = {f["key"] for f in known}
         seen = set()
         for fi in found:
